@@ -18,16 +18,34 @@ use zipora::hash_map::{
 use zipora::memory::{SecureMemoryPool, SecurePoolConfig};
 
 const HEADER: &str = r#"From ZV.Common Require Import Base Run.
-From ZV.C06 Require Import Model.
+From ZV.C06 Require Import Model ModelGold.
 Open Scope N_scope.
-(* kind 0: standard storage, hasher mode, initial capacity; kind 1: stub storage; kind 2: SmallMap *)
-Definition case_t : Type := N * N * N * list op * list obs.
+(* kind 0: standard storage [hasher mode; initial capacity; has_final; final capacity] [final slot-order iteration]
+   kind 1: stub storage; kind 2: SmallMap;
+   kind 3: GoldHashMap [initial capacity; cache; gc; reuse; has_final; final bucket count; final deleted count]
+                       [final entry-order iteration; hash table; max_load table] *)
+Definition case_t : Type := N * list N * list (list (N * N)) * list op * list obs.
+Definition pn (l : list N) (i : nat) : N := nth i l 0.
+Definition tb (l : list (list (N * N))) (i : nat) : list (N * N) := nth i l [].
 Definition ok (c : case_t) : bool :=
-  let '(kind, mode, cap, ops, expect) := c in
+  let '(kind, ps, ts, ops, expect) := c in
   match kind with
-  | 0 => eqb_obss (run (hasher mode) (init cap) ops) expect
+  | 0 => let h := hasher (pn ps 0) in
+         let st0 := init (pn ps 1) in
+         eqb_obss (run h st0 ops) expect &&
+         (if pn ps 2 =? 0 then true
+          else let st := exec h st0 ops in eqb_kvs (iter st) (tb ts 0) && (alloc st =? pn ps 3))
   | 1 => eqb_obss (stub_run ops) expect
-  | _ => eqb_obss (sm_run (hasher mode) (Small []) ops) expect
+  | 2 => eqb_obss (sm_run (hasher 0) (Small []) ops) expect
+  | _ => let h := assoc (tb ts 1) 0 in
+         let ml := assoc (tb ts 2) 0 in
+         let cfg := mkcfg (negb (pn ps 1 =? 0)) (negb (pn ps 2 =? 0)) (negb (pn ps 3 =? 0)) in
+         let g0 := with_config ml cfg (pn ps 0) in
+         eqb_obss (grun h ml cfg g0 ops) expect &&
+         (if pn ps 4 =? 0 then true
+          else let g := gexec h ml cfg g0 ops in
+               eqb_kvs (giter g) (tb ts 0) && (N.of_nat (length (g_buckets g)) =? pn ps 5)
+               && (g_flsize g =? pn ps 6))
   end.
 "#;
 
@@ -85,6 +103,8 @@ trait Mut {
     fn len(&mut self) -> Option<usize>;
     fn iter(&mut self) -> Option<Vec<(u64, u64)>>;
     fn clear(&mut self) -> Option<()>;
+    /// internal observables for the model comparison only: iteration in the order yielded, scalars
+    fn raw(&mut self) -> Option<(Vec<(u64, u64)>, Vec<u64>)> { None }
 }
 
 struct Zip(ZiporaHashMap<u64, u64, ModeBuild>);
@@ -101,6 +121,9 @@ impl Mut for Zip {
     }
     fn iter(&mut self) -> Option<Vec<(u64, u64)>> { Some(self.0.iter().map(|(k, v)| (*k, *v)).collect()) }
     fn clear(&mut self) -> Option<()> { self.0.clear(); Some(()) }
+    fn raw(&mut self) -> Option<(Vec<(u64, u64)>, Vec<u64>)> {
+        Some((self.0.iter().map(|(k, v)| (*k, *v)).collect(), vec![self.0.capacity() as u64]))
+    }
 }
 
 struct Gold<L: zipora::hash_map::LinkType>(GoldHashMap<CKey, u64, L>, u64);
@@ -117,6 +140,10 @@ impl<L: zipora::hash_map::LinkType> Mut for Gold<L> {
     }
     fn iter(&mut self) -> Option<Vec<(u64, u64)>> { Some(self.0.iter_with_strategy(IterationStrategy::Safe).map(|(k, v)| (k.id, *v)).collect()) }
     fn clear(&mut self) -> Option<()> { self.0.clear(); Some(()) }
+    fn raw(&mut self) -> Option<(Vec<(u64, u64)>, Vec<u64>)> {
+        Some((self.0.iter_with_strategy(IterationStrategy::Safe).map(|(k, v)| (k.id, *v)).collect(),
+              vec![self.0.capacity() as u64, self.0.deleted_count() as u64]))
+    }
 }
 
 struct Idx(GoldHashIdx<CKey, u64>, u64);
@@ -255,33 +282,49 @@ fn gold_config(variant: u64) -> (String, GoldHashMapConfig, bool) {
     }
 }
 
-struct Cell { name: String, status: &'static str, model: Option<(u64, u64, u64)>, stub: bool, map: Box<dyn Mut> }
+#[derive(Clone)]
+enum ModelDesc {
+    Std { mode: u64, cap: u64 },
+    Stub,
+    Small,
+    Gold { cap0: u64, cache: bool, gc: bool, reuse: bool, lf: f32, collide: u64 },
+}
+struct Cell { name: String, status: &'static str, model: Option<ModelDesc>, stub: bool, map: Box<dyn Mut> }
+
+const GOLD_PRIMES: [u64; 13] = [5, 11, 23, 47, 97, 199, 409, 823, 1741, 3469, 6949, 14033, 28411];
+fn default_hash(k: &CKey) -> u64 {
+    let mut h = std::collections::hash_map::DefaultHasher::new();
+    k.hash(&mut h);
+    h.finish()
+}
 
 fn make_cell(family: &str, variant: u64, aux: u64) -> Cell {
     match family {
         "zip" => {
             let (name, cfg, cap, stub) = zip_config(variant);
             let m = ZiporaHashMap::<u64, u64, ModeBuild>::with_config_and_hasher(cfg, ModeBuild(aux)).expect("with_config_and_hasher");
-            let model = if stub { Some((1, aux, 0)) } else { cap.map(|c| (0, aux, c)) };
+            let model = if stub { Some(ModelDesc::Stub) } else { cap.map(|c| ModelDesc::Std { mode: aux, cap: c }) };
             Cell { name: format!("ZiporaHashMap/{}", name), status: if stub { "finding" } else { "M+S" }, model, stub, map: Box::new(Zip(m)) }
         }
         "zipcap" => {
             // ZiporaHashMap::with_capacity(n) needs S: Default, i.e. hasher mode 0
             let n = variant as usize;
             let m = ZiporaHashMap::<u64, u64, ModeBuild>::with_capacity(n).expect("with_capacity");
-            Cell { name: "ZiporaHashMap/with_capacity".into(), status: "M+S", model: Some((0, 0, (n.max(16)) as u64)), stub: false, map: Box::new(Zip(m)) }
+            Cell { name: "ZiporaHashMap/with_capacity".into(), status: "M+S", model: Some(ModelDesc::Std { mode: 0, cap: n.max(16) as u64 }), stub: false, map: Box::new(Zip(m)) }
         }
         "gold" => {
             let (name, cfg, wide) = gold_config(variant);
+            let model = Some(ModelDesc::Gold { cap0: cfg.initial_capacity as u64, cache: cfg.enable_hash_cache, gc: cfg.enable_auto_gc,
+                                               reuse: cfg.enable_freelist_reuse, lf: cfg.load_factor, collide: aux });
             let map: Box<dyn Mut> = if wide { Box::new(Gold::<u64>(GoldHashMap::with_config(cfg), aux)) } else { Box::new(Gold::<u32>(GoldHashMap::with_config(cfg), aux)) };
-            Cell { name: format!("GoldHashMap/{}", name), status: "S-only", model: None, stub: false, map }
+            Cell { name: format!("GoldHashMap/{}", name), status: "M+S", model, stub: false, map }
         }
         "idx" => {
             let m = match variant { 0 => GoldHashIdx::new(), 1 => GoldHashIdx::with_capacity(1),
                 _ => GoldHashIdx::with_pool(16, SecureMemoryPool::new(SecurePoolConfig::small_secure()).expect("pool")) };
             Cell { name: format!("GoldHashIdx/{}", ["new", "with_capacity1", "with_pool"][variant.min(2) as usize]), status: "S-only", model: None, stub: false, map: Box::new(Idx(m, aux)) }
         }
-        "small" => Cell { name: "SmallMap".into(), status: "M+S", model: Some((2, 0, 0)), stub: false, map: Box::new(Sm(SmallMap::new(), aux)) },
+        "small" => Cell { name: "SmallMap".into(), status: "M+S", model: Some(ModelDesc::Small), stub: false, map: Box::new(Sm(SmallMap::new(), aux)) },
         "easy" => {
             let m = match variant {
                 0 => EasyHashMap::new(),
@@ -388,12 +431,31 @@ fn history(cx: &mut Ctx, family: &str, variant: u64, aux: u64, ops: &[(u64, u64,
         let class = if cell.stub && stub_like { Some("stub_storage_strategy") } else { None };
         cx.sum.fail(&name, class, cj.clone(), msg);
     }
-    // model comparison: the prefix of the history that produced observations
-    if let Some((kind, mode, cap)) = cell.model {
+    // model comparison: the prefix of the history that produced observations, plus (for complete
+    // histories) internal observables: iteration in the order yielded, capacity, deleted count
+    if let Some(desc) = cell.model.clone() {
         if coq && !obs.is_empty() {
             let n = obs.len();
+            let fin = if failure.is_none() { guarded(|| cell.map.raw()).ok().flatten() } else { None };
+            let kvs = |v: &[(u64, u64)]| format!("[{}]", v.iter().map(|(a, b)| format!("({}, {})", a, b)).collect::<Vec<_>>().join("; "));
+            let (kind, params, tables): (u64, Vec<u64>, Vec<String>) = match desc {
+                ModelDesc::Std { mode, cap } => match &fin {
+                    Some((it, sc)) => (0, vec![mode, cap, 1, sc[0]], vec![kvs(it)]),
+                    None => (0, vec![mode, cap, 0, 0], vec![]),
+                },
+                ModelDesc::Stub => (1, vec![], vec![]),
+                ModelDesc::Small => (2, vec![], vec![]),
+                ModelDesc::Gold { cap0, cache, gc, reuse, lf, collide } => {
+                    let mut ks: Vec<u64> = ops[..n].iter().map(|o| o.1).collect(); ks.sort(); ks.dedup();
+                    let hs: Vec<(u64, u64)> = ks.iter().map(|&k| (k, default_hash(&ckey(collide, k)))).collect();
+                    let ml: Vec<(u64, u64)> = GOLD_PRIMES.iter().map(|&p| (p, (p as f32 * lf) as usize as u64)).collect();
+                    let (has, it, b, d) = match &fin { Some((it, sc)) => (1, it.clone(), sc[0], sc[1]), None => (0, vec![], 0, 0) };
+                    (3, vec![cap0, cache as u64, gc as u64, reuse as u64, has, b, d], vec![kvs(&it), kvs(&hs), kvs(&ml)])
+                }
+            };
             let ops_coq: Vec<String> = ops[..n].iter().map(|(c, k, v)| format!("({}, {}, {})", c, k, v)).collect();
-            let term = format!("({}, {}, {}, [{}], [{}])", kind, mode, cap, ops_coq.join("; "), obs.join("; "));
+            let term = format!("({}, {}, [{}], [{}], [{}])", kind, coq_n_list(params.iter().map(|&x| x as u128)),
+                               tables.join("; "), ops_coq.join("; "), obs.join("; "));
             cx.shards.push(term, cj);
         }
     }
@@ -430,6 +492,23 @@ fn gen_history(r: &mut Rng, max_len: u64) -> Vec<(u64, u64, u64)> {
     ops.push((5, 0, 0));
     ops.push((6, 0, 0));
     for &k in universe.iter().take(48) { ops.push((2, k, 0)); }
+    ops
+}
+
+/// a large fill (past the rehash points of the big presets: GoldHashMap::large rehashes at 721 entries,
+/// the standard storage grows 16 -> 2048), a sweep of removals, partial re-insertion, then a full read-back
+fn gen_big(r: &mut Rng) -> Vec<(u64, u64, u64)> {
+    let n = *r.pick(&[300u64, 800, 1500]);
+    let stride = *r.pick(&[1u64, 16, 7]);
+    let mut ops = vec![];
+    for i in 0..n { ops.push((0, i * stride, 1000 + i)); }
+    let every = r.range(2, 5);
+    for i in 0..n { if i % every == 0 { ops.push((1, i * stride, 0)); } }
+    ops.push((5, 0, 0));
+    for i in 0..n { if i % (every * 2) == 0 { ops.push((0, i * stride, 5000 + i)); } }
+    ops.push((5, 0, 0));
+    ops.push((6, 0, 0));
+    for i in 0..n { ops.push((2, i * stride, 0)); }
     ops
 }
 
@@ -504,7 +583,7 @@ pub fn run(args: &Args) {
         count += 1;
         if long { continue; }
         history(&mut cx, "zip", 0, 9, ops, coq);
-        history(&mut cx, "gold", 0, 2, ops, false);
+        history(&mut cx, "gold", 0, 2, ops, coq && n % (2 * stride) == 0);
         history(&mut cx, "gold", 3, 2, ops, false);
         history(&mut cx, "idx", 0, 2, ops, false);
         history(&mut cx, "small", 0, 2, ops, false);
@@ -525,11 +604,24 @@ pub fn run(args: &Args) {
         }
         let n = *rng.pick(&[0u64, 1, 16, 17, 24, 31, 33, 64, 100]);
         history(&mut cx, "zipcap", n, 0, &ops, room);
-        for variant in 0..GOLD_VARIANTS { history(&mut cx, "gold", variant, rng.below(4), &ops, false); }
+        for variant in 0..GOLD_VARIANTS { history(&mut cx, "gold", variant, rng.below(4), &ops, room && (variant + i) % 4 == 1 && ops.len() <= 120); }
         for variant in 0..3 { history(&mut cx, "idx", variant, rng.below(4), &ops, false); }
         history(&mut cx, "small", 0, rng.below(4), &ops, room);
         for variant in 0..5 { history(&mut cx, "easy", variant, rng.below(4), &ops, false); }
         history(&mut cx, "str", i % 2, 0, &ops, false);
+    }
+    // large fills on every cell (one Coq evaluation of the smallest)
+    let bigs = if args.thorough { 12 } else { 2 };
+    for i in 0..bigs {
+        let ops = gen_big(&mut rng);
+        cx.sum.dist("big_fill_histories");
+        for variant in 0..ZIP_VARIANTS { history(&mut cx, "zip", variant, [0u64, 1, 6, 4][(i + variant as usize) % 4], &ops, false); }
+        history(&mut cx, "zipcap", 1000, 0, &ops, false);
+        for variant in 0..GOLD_VARIANTS { history(&mut cx, "gold", variant, [0u64, 1][i % 2], &ops, false); }
+        for variant in 0..3 { history(&mut cx, "idx", variant, 0, &ops, false); }
+        history(&mut cx, "small", 0, 0, &ops, false);
+        for variant in 0..5 { history(&mut cx, "easy", variant, 0, &ops, false); }
+        history(&mut cx, "str", 0, 0, &ops, false);
     }
     cx.sum.dist_max("coq_cases", cx.shards.len() as u64);
     let sh = cx.shards.write(&args.out);
